@@ -2,7 +2,7 @@
 
 The symbolic rule R16.w runs the pair loop of the constructor once, for a symbolic pair; state carried from one pair to
 the next (a dictionary of already tabulated potentials, a memo of evaluated omegas) is invisible to it.  Here a real System
-over the concrete types ['A','B'] is built from real potential, closure and omega objects with symbolic parameters, the
+over the concrete types ['S','C'] (not in alphabetical order) is built from real potential, closure and omega objects with symbolic parameters, the
 real PRISM constructor is executed, and for every pair
 
     closure[a,b].potential == (the potential object the user stored for that pair).calculate(domain.r) / kT
@@ -24,8 +24,10 @@ from .density_sem import label
 
 SYSQ = 'pyPRISM.core.System::System'
 PRISMQ = 'pyPRISM.core.PRISM::PRISM'
-LABELS = ('A', 'B')
-PAIRS = (('A', 'A'), ('A', 'B'), ('B', 'B'))
+# deliberately NOT in alphabetical order: the arrays of the PRISM object are combined position by position, so every table
+# has to be laid out in the order of System.types, not in some canonical order of the labels
+LABELS = ('S', 'C')
+PAIRS = (('S', 'S'), ('S', 'C'), ('C', 'C'))
 
 
 def _cls(prog, name):
@@ -80,7 +82,7 @@ def make_system(ip, scenario, cfg=''):
     ip.set_attr(sysobj, 'domain', grid_domain(ip, cfg), None)
     for l in LABELS:
         _setitem(ip, ip.get_attr(sysobj, 'density', None), label(l), Num(ip.declare('rho_%s' % l)))
-        _setitem(ip, ip.get_attr(sysobj, 'diameter', None), label(l), Num(ip.declare('d_%s%s' % (l, cfg if l == 'A' else ''))))
+        _setitem(ip, ip.get_attr(sysobj, 'diameter', None), label(l), Num(ip.declare('d_%s%s' % (l, cfg if l == LABELS[0] else ''))))
     pot, clo, om = ip.get_attr(sysobj, 'potential', None), ip.get_attr(sysobj, 'closure', None), ip.get_attr(sysobj, 'omega', None)
     proto = ip.construct(_cls(prog, 'WeeksChandlerAndersen'), [], {'epsilon': Num(ip.declare('eps'))})
     for i, (a, b) in enumerate(PAIRS):
@@ -125,9 +127,9 @@ def expected(ip, sysobj):
         db = ip.term_of(_value(ip, ip.get_attr(sysobj, 'diameter', None), b))[0]
         contact = (da + db) / 2
         u = ip.lib.deepcopy(ip, [_getitem(ip, ip.get_attr(sysobj, 'potential', None), a, b)], {}, None)
-        sg = u.attrs.get('sigma')
+        sg = ip.get_attr(u, 'sigma', None)
         if isinstance(sg, Const) and sg.v is None:
-            u.attrs['sigma'] = Num(contact)
+            ip.set_attr(u, 'sigma', Num(contact), None)
         ut = ip.term_of(ip.call(ip.find_method(u, 'calculate'), [r], {}))[0]
         o = ip.lib.deepcopy(ip, [_getitem(ip, ip.get_attr(sysobj, 'omega', None), a, b)], {}, None)
         ot = ip.term_of(ip.call(ip.find_method(o, 'calculate'), [k], {}))[0]
@@ -146,6 +148,14 @@ def _value(ip, tbl, l):
     return v
 
 
+def _attr(ip, o, name):
+    """attribute as the package itself would read it (plain attribute, property, class default); None when absent"""
+    try:
+        return ip.get_attr(o, name, None)
+    except Raised:
+        return None
+
+
 def observed(ip, prism):
     psys = prism.attrs.get('sys')
     if not (isinstance(psys, Obj) and psys.isa('System')):
@@ -158,7 +168,7 @@ def observed(ip, prism):
     out['grid'] = tuple(ip.term_of(ip.get_attr(pdom, nm, None))[0] for nm in ('r', 'k')) if isinstance(pdom, Obj) else None
     for a, b in PAIRS:
         c = _getitem(ip, ip.get_attr(psys, 'closure', None), a, b)
-        cp, cs = c.attrs.get('potential'), c.attrs.get('sigma')
+        cp, cs = _attr(ip, c, 'potential'), _attr(ip, c, 'sigma')
         i, j = LABELS.index(a), LABELS.index(b)
         out[(a, b)] = {'potential': ip.term_of(cp)[0] if isinstance(cp, (Arr, View, Num)) else None,
                        'sigma': ip.term_of(cs)[0] if isinstance(cs, (Arr, View, Num)) else None,
@@ -248,11 +258,11 @@ def run(prog, scenario, preset, history):
         # the same System is re-configured in place (sys.domain.dr = ..., sys.diameter['A'] = ...) and a
         # second PRISM object is built from it; the reference is a System that no constructor ever touched
         grid_domain(ip, '_2', dom=ip.get_attr(sysobj, 'domain', None))
-        _setitem(ip, ip.get_attr(sysobj, 'diameter', None), label('A'), Num(ip.declare('d_A_2')))
+        _setitem(ip, ip.get_attr(sysobj, 'diameter', None), label(LABELS[0]), Num(ip.declare('d_%s_2' % LABELS[0])))
         twin = make_system(ip, scenario, cfg='_2')
         want2 = expected(ip, twin)
         prism2 = ip.construct(prog.cls(PRISMQ), [sysobj], {})
-        bad += _diff(observed(ip, prism2), want2, 'second PRISM object built from the same System after dr and the diameter of A '
+        bad += _diff(observed(ip, prism2), want2, 'second PRISM object built from the same System after dr and the diameter of S '
                                                   'were changed')
         obs1b = observed(ip, prism)
         bad += _diff(obs1b, want, 'first PRISM object, after the System was re-configured and used again')
